@@ -22,6 +22,7 @@ import (
 //	drop <from> <to> [max=<k>]
 //	fetch <i> on|off                whether i can fetch blocks from its peers' stores
 //	queues
+//	qcof <qcname> <block>           names the certificate a block carries
 //	<anything else>                 world op (cert / wire families): crafting
 type clusterFam struct {
 	world *wireFam
@@ -184,6 +185,16 @@ func (c *clusterFam) op(a []string) string {
 			return "idle"
 		}
 		return strings.Join(outs, " || ")
+	case "qcof":
+		if len(a) != 3 || c.world.env == nil || a[2] == "G" {
+			return "bad-op"
+		}
+		b, ok := c.world.blocks[a[2]]
+		if !ok {
+			return "bad-op"
+		}
+		c.world.qcs[a[1]] = b.QuorumCert()
+		return "ok"
 	case "queues":
 		var p []string
 		for _, x := range c.ids() {
